@@ -274,6 +274,7 @@ class World:
         mon = FsMonitor(self.sb, self.tmp)
         mon.fault = fault
         if fault is not None:
+            rctx.hooks['faults_active'] = True
             def _on_fire():
                 fc = rctx.current_call()
                 rctx.fault_call = fc
